@@ -1,5 +1,6 @@
 import BfeVerif.Common.Proto
 import BfeVerif.C41.Model
+import BfeVerif.C41.Select
 /-!
   C41 driver.  One op = one (Config, Rule, ClientHello, session lookups) case, 23 space separated fields:
 
@@ -213,7 +214,13 @@ def runHs (f : List String) (impl : String) : Ans :=
         | .ok p =>
           -- what a standard client does with the ServerHello: it refuses a version below its minimum and an ALPN
           -- protocol it did not offer
-          if p.vers < cmin || (p.alpn != "" && !c.hello.alpn.contains p.alpn) then "srv=err cli=err echo=-"
+          -- … and the ECDHE key exchange needs a curve the server implements (a raw Config.CurvePreferences may name
+          -- one it does not: readClientHello accepts, generateServerKeyExchange fails closed)
+          let kxCurves := if p.ecdheNoExt then c.hello.curves ++ [curveP256] else c.hello.curves
+          let kxBad := !p.resume && p.suite.has suiteECDHE &&
+            !implementedCurves.contains (keyExchangeCurve c.cfg.curvePreferences kxCurves)
+          if kxBad then "srv=err cli=err echo=- kx=unimplemented-curve"
+          else if p.vers < cmin || (p.alpn != "" && !c.hello.alpn.contains p.alpn) then "srv=err cli=err echo=-"
           else "srv=" ++ sideStr p p.clientProto ++ " cli=" ++ sideStr p p.alpn ++ " echo=ok"
       let srvOk := (outcome.splitOn " cli=").getD 0 ""
       let cliOk := (outcome.splitOn " cli=").getD 1 ""
@@ -233,14 +240,167 @@ def runHs (f : List String) (impl : String) : Ans :=
       let kind := match m with
         | .error _ => "hs-refused"
         | .ok p => if expected.startsWith "srv=err" then "hs-client-rejects" else if p.resume then "hs-resumed" else "hs-full"
+      let kx := expected.endsWith "kx=unimplemented-curve"
+      let expected := if kx then "srv=err cli=err echo=-" else expected
+      let kind := if kx then "hs-curve-unimplemented" else kind
       { model := helloStr ++ " | " ++ expected, verdict := verdict,
         tags := ["hs", kind] ++ (if expected.startsWith "srv=ok" then ["nt"] else []) }
     | _, _ => { model := "bad-hello", verdict := "FAIL:hs-hello-not-captured" }
   | _ => { model := "bad-result", verdict := "FAIL:unparsable-result" }
 
+/-! ### streams `rl`, `cl`, `cn`, `ca`: which rule / certificate / client-certificate policy governs a connection -/
+
+def parseKV (s : String) : Option (List (String × String)) :=
+  if s == "-" then some []
+  else (s.splitOn ",").mapM fun e =>
+    match e.splitOn "=" with
+    | [k, v] => some (k, v)
+    | _ => none
+
+def undash (s : String) : String := if s == "-" then "" else s
+
+structure Prod where
+  name : String
+  grade : String
+  ca : Bool
+  ch : Bool
+
+def renderProd (p : Prod) : String :=
+  p.name ++ " g=" ++ p.grade ++ " ca=" ++ (if p.ca then "1" else "0") ++ " ch=" ++ (if p.ch then "1" else "0")
+
+def defaultProd : Prod := { name := "default", grade := gradeC, ca := false, ch := false }
+
+def parseProds (s : String) : Option (List Prod) :=
+  (s.splitOn ";").mapM fun e =>
+    match e.splitOn ":" with
+    | [n, g, a, c] => some { name := n, grade := g, ca := a == "1", ch := c == "1" }
+    | _ => none
+
+def runRl (f : List String) (impl : String) : Ans :=
+  match f with
+  | [prods, vm, sm, vip, sni] =>
+    match parseProds prods, parseKV vm, parseKV sm with
+    | some ps, some vm, some sm =>
+      let find (n : String) : Prod := (ps.find? (·.name == n)).getD defaultProd
+      let t : RuleTable Prod := { vip := vm.map fun p => (p.1, find p.2), sni := sm.map fun p => (p.1, find p.2), dflt := defaultProd }
+      let vipO := if vip == "-" then none else some vip
+      let m := getRule t vipO (undash sni)
+      -- spec: VIP's rule; else the rule configured for that host name (host names compare case-insensitively, a
+      -- trailing dot is not part of the name); else the default rule
+      let want : Prod :=
+        match vipO.bind (lookup t.vip) with
+        | some r => r
+        | none =>
+          match t.sni.find? fun p => normName p.1 == normName (undash sni) with
+          | some p => p.2
+          | none => defaultProd
+      let viaVip := (vipO.bind (lookup t.vip)).isSome
+      let exact := (lookup t.sni (undash sni)).isSome
+      let verdict :=
+        if impl == renderProd want then "ok"
+        else if impl == renderProd defaultProd then "FAIL:sni-rule-not-normalised"
+        else "FAIL:wrong-rule"
+      { model := renderProd m, verdict := verdict,
+        tags := ["rl", if viaVip then "rl-vip" else if want.name == "default" then "rl-default" else if exact then "rl-sni-exact" else "rl-sni-normalised", "nt"] }
+    | _, _, _ => { model := "bad-op", verdict := "skip" }
+  | _ => { model := "bad-op", verdict := "skip" }
+
+def runCl (f : List String) (impl : String) : Ans :=
+  match f with
+  | [certs, vm, vip, sni] =>
+    match (certs.splitOn ";").mapM (fun e => match e.splitOn "=" with | [n, ns] => some (n, ns.splitOn "|") | _ => none), parseKV vm with
+    | some cs, some vm =>
+      let pairs : List (String × String) := cs.flatMap fun c => c.2.map fun n => (n, c.1)
+      let normal := pairs.filter fun p => !p.1.contains '*'
+      let wild := pairs.filter fun p => p.1.contains '*'
+      let vipO := if vip == "-" then none else some vip
+      let n := normName (undash sni)
+      -- the wildcard map is iterated in Go-map order: every matching pattern is a possible answer
+      let cands := ((wild.filter fun p => matchHostnames p.1 n).map (·.2)).eraseDups
+      let order : List (String × String) :=
+        match wild.find? fun p => matchHostnames p.1 n && p.2 == impl with
+        | some hit => hit :: wild
+        | none => wild
+      let t : CertTable := { vip := vm, normal := normal, wildcard := order, dflt := "BFE_DEFAULT_CERT" }
+      let m := certGet t vipO (undash sni)
+      -- spec: the VIP's certificate; else a certificate carrying the name exactly; else one with a matching wildcard
+      -- pattern; else the default
+      let want : List String :=
+        match vipO.bind (lookup vm) with
+        | some c => [c]
+        | none =>
+          if (undash sni).isEmpty then ["BFE_DEFAULT_CERT"]
+          else match lookup normal n with
+            | some c => [c]
+            | none => if cands.isEmpty then ["BFE_DEFAULT_CERT"] else cands
+      { model := m, verdict := if want.contains impl then "ok" else "FAIL:wrong-certificate",
+        tags := ["cl", if (vipO.bind (lookup vm)).isSome then "cl-vip" else if (lookup normal n).isSome && !(undash sni).isEmpty then "cl-exact"
+                 else if !cands.isEmpty && !(undash sni).isEmpty then (if cands.length > 1 then "cl-wildcard-ambiguous" else "cl-wildcard") else "cl-default", "nt"] }
+    | _, _ => { model := "bad-op", verdict := "skip" }
+  | _ => { model := "bad-op", verdict := "skip" }
+
+def runCn (f : List String) (impl : String) : Ans :=
+  match f with
+  | [n, m, name] =>
+    match n.toNat?, (if m == "nil" then some none else (parseKV m).map some) with
+    | some n, some mo =>
+      let mo' : Option (List (String × Nat)) := mo.map fun l => l.filterMap fun p => p.2.toNat?.map fun i => (p.1, i)
+      let r := certForName n mo' (undash name)
+      { model := toString r, verdict := if impl == toString r then "ok" else "FAIL:cert-for-name", tags := ["cn", "nt"] }
+    | _, _ => { model := "bad-op", verdict := "skip" }
+  | _ => { model := "bad-op", verdict := "skip" }
+
+/-- the harness's client certificates: (issuer CA, EKU admits client auth for x509.Verify, EKU lists ClientAuth) -/
+def clientKind (k : String) : Option (String × Bool × Bool) :=
+  if k == "A" then some ("A", true, true)
+  else if k == "B" then some ("B", true, true)
+  else if k == "noeku" then some ("A", true, false)
+  else if k == "srvonly" then some ("A", false, false)
+  else if k == "self" then some ("self", true, true)
+  else none
+
+def runCa (f : List String) (impl : String) : Ans :=
+  match f with
+  | [pol, ruleCA, cfgPool, rulePool, client, _vers] =>
+    match pol.toNat? with
+    | some cfgPol =>
+      let rca := ruleCA == "1"
+      let policy := if rca then requireAndVerifyClientCert else cfgPol
+      let po (s : String) : Option String := if s == "-" then none else some s
+      let pool := clientCAPool (po cfgPool) (if rca then po rulePool else none) rca
+      let cc : Option ClientCert :=
+        if client == "none" then none
+        else match clientKind client with
+          | some (issuer, ekuOk, ekuListed) =>
+            some { parses := true, revoked := false, chainOk := pool == some issuer && ekuOk, ekuListed := ekuListed,
+                   keyOk := true, sigOk := true }
+          | none => none
+      let m := match clientAuthStep policy cc with
+        | .ok r => "srv=ok certs=" ++ (if r.isSome then "1" else "0") ++ " cli=ok"
+        | .error a => "srv=err cli=err alert=" ++ toString a
+      -- spec on the implementation's answer: a completed handshake met the policy in force for the connection
+      let verdict :=
+        if impl.startsWith "srv=ok" then
+          let n := (field impl "certs").bind String.toNat? |>.getD 0
+          if (policy == requireAnyClientCert || policy == requireAndVerifyClientCert) && n == 0 then "FAIL:client-cert-not-demanded"
+          else if n != 0 && policy ≥ verifyClientCertIfGiven &&
+              !(match clientKind client with | some (issuer, _, listed) => pool == some issuer && listed | none => false) then
+            "FAIL:client-cert-unverified-accepted"
+          else if n != 0 && client == "none" then "FAIL:client-cert-phantom"
+          else "ok"
+        else "ok"
+      { model := m, verdict := verdict,
+        tags := ["ca", "ca-pol" ++ toString policy, if m.startsWith "srv=ok" then "ca-ok" else "ca-refused", "nt"] }
+    | none => { model := "bad-op", verdict := "skip" }
+  | _ => { model := "bad-op", verdict := "skip" }
+
 def run (op impl : String) : Ans :=
   match op.splitOn " " with
   | "hs" :: f => runHs f impl
+  | "rl" :: f => runRl f impl
+  | "cl" :: f => runCl f impl
+  | "cn" :: f => runCn f impl
+  | "ca" :: f => runCa f impl
   | _ =>
   match parseCase op with
   | none => { model := "bad-op", verdict := "skip" }
